@@ -19,6 +19,11 @@
 #include <opm/output/eclipse/RestartIO.hpp>
 #include <opm/output/eclipse/RestartValue.hpp>
 #include <opm/output/eclipse/AggregateAquiferData.hpp>
+#include <opm/output/eclipse/AggregateMSWData.hpp>
+#include <opm/output/eclipse/WriteRestartHelpers.hpp>
+#include <opm/output/eclipse/VectorItems/intehead.hpp>
+#include <opm/output/eclipse/VectorItems/msw.hpp>
+#include <opm/io/eclipse/rst/segment.hpp>
 #include <opm/output/data/Wells.hpp>
 #include <opm/output/data/Solution.hpp>
 #include <opm/output/data/Groups.hpp>
@@ -1065,6 +1070,8 @@ struct GenModel {
 
 std::string num(double x) { std::ostringstream o; o.precision(10); o << x; return o.str(); }
 
+bool g_with_sicd = false;     // WSEGSICD segments: correspondence mode only (two table-level findings live there; see design.d/C05.md)
+
 struct GWell {
     std::string name, group; int i, j, k0, nc; bool producer, history; char injphase; int born; bool msw; bool shut;
     double orat, wrat, grat, bhp, efac; bool bottom_up; bool nocontrol; int sattab;
@@ -1083,6 +1090,7 @@ GenModel make_model(vh::Rng& rng, int c)
     const bool with_msw = rng.coin(1, 3), with_udq = rng.coin(2, 3), with_act = rng.coin(1, 2), with_net = rng.coin(1, 4),
                with_wlist = rng.coin(1, 3), with_gcon = rng.coin(2, 3), with_node = rng.coin(), with_wtest = rng.coin(1, 3),
                with_guiderat = rng.coin(1, 4), with_glo = rng.coin(1, 5), exact_groups = rng.coin(), late_parent = rng.coin();
+    const bool sicd_ok = g_with_sicd;
     static const char* mon[] = {"JAN", "FEB", "MAR", "APR", "MAY", "JUN", "JUL", "AUG"};
     m.dates.resize(nblocks + 1);
     for (int k = 1; k <= nblocks; ++k) m.dates[k] = std::string("1 '") + mon[k] + "' 2020";
@@ -1152,7 +1160,11 @@ GenModel make_model(vh::Rng& rng, int c)
             for (int s = 0; s < w->nc; ++s)
                 o << " " << w->i + 1 << " " << w->j + 1 << " " << w->k0 + s + 1 << " 1 " << num(10.0 * s) << " " << num(10.0 * (s + 1)) << " /\n";
             o << "/\n";
-            if (rng.coin()) o << "WSEGVALV\n '" << w->name << "' " << w->nc + 1 << " 0.7 " << num(0.001 * rng.range(1, 9)) << " /\n/\n";
+            const int dev = rng.range(0, 2);
+            if (dev == 0) o << "WSEGVALV\n '" << w->name << "' " << w->nc + 1 << " 0.7 " << num(0.001 * rng.range(1, 9)) << " /\n/\n";
+            else if (dev == 1 && sicd_ok)
+                o << "WSEGSICD\n '" << w->name << "' " << w->nc + 1 << " " << w->nc + 1 << " " << num(0.0001 * rng.range(1, 9)) << " " << num(1.0 * rng.range(5, 20)) << " 1000.25 1.45 0.5 "
+                  << num(0.01 * rng.range(1, 9)) << " 5 -1 " << (rng.coin() ? num(100.0 * rng.range(1, 30)) : std::string("1*")) << " 'OPEN' /\n/\n";
         }
     };
     auto controls = [&](std::ostringstream& o, const std::vector<const GWell*>& ws_all, double scale, bool uda_ok) {
@@ -1398,6 +1410,95 @@ int run_prop(uint64_t seed, const std::string& tier, const std::string& outdir)
     return 0;
 }
 
+// ---------------------------------------------------------------------------------------------
+// correspondence: the real RstSegment against the model's decoding of the same ISEG / RSEG windows (Gen/RstMsw.lean)
+
+#define MEASURES(X) X(identity) X(length) X(time) X(pressure) X(liquid_surface_rate) X(gas_surface_rate) X(rate) \
+    X(liquid_surface_volume) X(gas_surface_volume) X(volume) X(geometric_volume) X(geometric_volume_rate) X(density) X(viscosity) \
+    X(icd_strength) X(aicd_strength)
+
+std::string ublock(const Opm::UnitSystem& us)
+{
+    std::ostringstream o;
+    int k = 0;
+#define CNT(m) ++k;
+    MEASURES(CNT)
+#undef CNT
+    o << "U " << k;
+#define ONE(m) { const double off = us.to_si(M::m, 0.0); const double f = us.from_si(M::m, off + 1.0); const double t = us.to_si(M::m, 1.0) - off; \
+                 o << " " #m " " << vh::hexF64(f) << " " << vh::hexF64(t) << " " << vh::hexF64(off); }
+    MEASURES(ONE)
+#undef ONE
+    return o.str();
+}
+
+int run_corr(uint64_t seed, const std::string& tier, const std::string& outdir)
+{
+    vh::Sink sink(outdir);
+    g_with_sicd = true;
+    const int want = tier == "thorough" ? 400 : 40;
+    int wells_done = 0;
+    for (int c = 0; c < 4000 && wells_done < want; ++c) {
+        vh::Rng crng(seed * 999983ull + 31ull * static_cast<uint64_t>(c) + 3);
+        const auto gm = make_model(crng, c);
+        if (gm.full.find("WELSEGS") == std::string::npos) continue;
+        std::unique_ptr<Case> csp;
+        try { csp = std::make_unique<Case>(parse(gm.full, false)); }
+        catch (const std::exception& e) { sink.count("deck_rejected"); continue; }
+        Case& cs = *csp;
+        const std::size_t rs = static_cast<std::size_t>(crng.range(1, gm.nsteps - 1));
+        Sim sim(cs);
+        sim.segment_results = crng.coin();
+        try { for (std::size_t k = 1; k <= rs; ++k) sim.advance(crng, k); }
+        catch (const std::exception& e) { sink.count("sim_failed"); continue; }
+        const std::size_t sim_step = rs - 1;
+        const auto& us = cs.es.getUnits();
+        const auto ih = Opm::RestartIO::Helpers::createInteHead(cs.es, cs.grid, cs.sched, 0.0, static_cast<int>(sim_step), static_cast<int>(rs), static_cast<int>(sim_step));
+        namespace VI = Opm::RestartIO::Helpers::VectorItems;
+        auto md = Opm::RestartIO::Helpers::AggregateMSWData(ih);
+        md.captureDeclaredMSWData(cs.sched, sim_step, us, ih, cs.grid, sim.st, sim.xw);
+        const auto& iseg = md.getISeg(); const auto& rseg = md.getRSeg();
+        const int nisegz = ih[VI::intehead::NISEGZ], nrsegz = ih[VI::intehead::NRSEGZ], nsegmx = ih[VI::intehead::NSEGMX];
+        const std::string U = ublock(us);
+        sink.count("case." + gm.units);
+        int msw_index = 0;
+        for (const auto& wname : cs.sched.wellNames(sim_step)) {
+            const auto& well = cs.sched.getWell(wname, sim_step);
+            if (!well.isMultiSegment()) continue;
+            ++msw_index; ++wells_done;
+            sink.count(well.isProducer() ? "msw.producer" : "msw.injector");
+            for (int is = 0; is < nsegmx; ++is) {
+                const std::size_t io = static_cast<std::size_t>(nisegz) * (is + (msw_index - 1) * nsegmx), ro = static_cast<std::size_t>(nrsegz) * (is + (msw_index - 1) * nsegmx);
+                if (iseg[io + VI::ISeg::SegNo] == 0) continue;
+                const Opm::RestartIO::RstSegment sg(us, is + 1, iseg.data() + io, rseg.data() + ro);
+                sink.count("segments");
+                {
+                    std::ostringstream w, f, a; int n = 0;
+                    w << "W " << nisegz; for (int q = 0; q < nisegz; ++q) w << " " << iseg[io + q];
+#define SI(member) { f << " segment." #member; a << (n++ ? " " : "") << static_cast<long>(sg.member); }
+                    SI(outlet_segment) SI(branch) SI(segment_type) SI(icd_scaling_mode) SI(icd_status)
+#undef SI
+                    sink.emit("rstmsw.dec ISEG " + U + " " + w.str() + " F " + std::to_string(n) + f.str(), a.str());
+                }
+                {
+                    std::ostringstream w, f, a; int n = 0;
+                    w << "W " << nrsegz; for (int q = 0; q < nrsegz; ++q) w << " " << vh::hexF64(rseg[ro + q]);
+#define SD(member) { f << " segment." #member; a << (n++ ? " " : "") << vh::hexF64(static_cast<double>(sg.member)); }
+                    SD(dist_outlet) SD(outlet_dz) SD(diameter) SD(roughness) SD(area) SD(volume) SD(dist_bhp_ref) SD(node_depth) SD(total_flow)
+                    SD(water_flow_fraction) SD(gas_flow_fraction) SD(pressure) SD(valve_length) SD(valve_area) SD(valve_flow_coeff) SD(valve_max_area)
+                    SD(fluid_density) SD(fluid_viscosity) SD(critical_water_fraction) SD(transition_region_width) SD(max_emulsion_ratio)
+                    SD(max_valid_flow_rate) SD(icd_length) SD(valve_area_fraction) SD(aicd_flowrate_exponent) SD(aicd_viscosity_exponent)
+#undef SD
+                    sink.emit("rstmsw.dec RSEG " + U + " " + w.str() + " F " + std::to_string(n) + f.str(), a.str());
+                    sink.count("dec.fields", n + 5);
+                }
+            }
+        }
+    }
+    sink.writeStats(outdir + "/stats.json");
+    return 0;
+}
+
 int run_one(const std::string& deckfile, int rs, uint64_t seed)
 {
     Reporter rep; rep.verbose = true;
@@ -1436,6 +1537,10 @@ int main(int argc, char** argv)
         if (mode == "prop" && argc >= 5) {
             std::filesystem::create_directories(argv[4]);
             return run_prop(std::strtoull(argv[2], nullptr, 10), argv[3], argv[4]);
+        }
+        if (mode == "corr" && argc >= 5) {
+            std::filesystem::create_directories(argv[4]);
+            return run_corr(std::strtoull(argv[2], nullptr, 10), argv[3], argv[4]);
         }
         if (mode == "one") return run_one(argv[2], std::atoi(argv[3]), argc > 4 ? std::strtoull(argv[4], nullptr, 10) : 1);
         if (mode == "gen") return run_gen(std::strtoull(argv[2], nullptr, 10), std::atoi(argv[3]));
